@@ -81,6 +81,19 @@ MAX = 4094  # the entry limit named by the property
 FILL = 0xA5
 
 
+
+_PER_KEY: dict[str, int] = {}
+
+
+def report(ctx: Any, case: Any, key: str, what: str) -> None:
+    """ctx.fail, keeping at most a few cases per key so that one noisy class cannot crowd out a different violation."""
+    _PER_KEY[key] = _PER_KEY.get(key, 0) + 1
+    if _PER_KEY[key] <= 4:
+        ctx.fail(case, key, what)
+    else:
+        ctx.note("failures_not_listed", {k: v - 4 for k, v in _PER_KEY.items() if v > 4})
+
+
 # ------------------------------------------------------------------------------------------ spec, in Python
 
 
@@ -123,26 +136,26 @@ def check_alloc(ctx: Any, case: Any, pre: list, post: list, total: int, n: int, 
     fitting = [g for g in gaps(pre, total) if g[1] >= n]
     if res is None:
         if len(pre) < MAX and fitting:
-            ctx.fail(case, "C28:alloc-none-but-gap-fits", f"allocate({n}) returned None with gap {fitting[0]} free and {len(pre)} entries")
+            report(ctx, case, "C28:alloc-none-but-gap-fits", f"allocate({n}) returned None with gap {fitting[0]} free and {len(pre)} entries")
         if post != pre:
-            ctx.fail(case, "C28:alloc-table-change", "allocate returned None but the table changed")
+            report(ctx, case, "C28:alloc-table-change", "allocate returned None but the table changed")
         return
     if len(pre) >= MAX:
-        ctx.fail(case, "C28:alloc-beyond-limit", f"allocate succeeded on a table of {len(pre)} entries")
+        report(ctx, case, "C28:alloc-beyond-limit", f"allocate succeeded on a table of {len(pre)} entries")
         return
     if not fitting:
-        ctx.fail(case, "C28:alloc-no-gap", f"allocate({n}) returned {res} although no gap fits")
+        report(ctx, case, "C28:alloc-no-gap", f"allocate({n}) returned {res} although no gap fits")
         return
     lowest = min(g[0] for g in fitting)
     if res != lowest:
-        ctx.fail(case, "C28:alloc-not-first-fit", f"allocate({n}) returned {res}, lowest fitting gap starts at {lowest}")
+        report(ctx, case, "C28:alloc-not-first-fit", f"allocate({n}) returned {res}, lowest fitting gap starts at {lowest}")
     if post != sorted(pre + [(res, n)]):
-        ctx.fail(case, "C28:alloc-table-change", f"table after allocate({n})={res} is not the old table plus ({res},{n})")
+        report(ctx, case, "C28:alloc-table-change", f"table after allocate({n})={res} is not the old table plus ({res},{n})")
 
 
 def check_inv(ctx: Any, case: Any, post: list, total: int) -> None:
     for clause in inv_violations(post, total):
-        ctx.fail(case, f"C28:table-invariant:{clause}", f"table {post[:6]}… violates '{clause}' (total {total})")
+        report(ctx, case, f"C28:table-invariant:{clause}", f"table {post[:6]}… violates '{clause}' (total {total})")
 
 
 # ------------------------------------------------------------------------------------------ real allocator on a bare header
@@ -155,14 +168,14 @@ class Alloc:
         from vgi_rpc.shm import ShmAllocator
 
         self.total = total
-        self.raw = bytearray(H)
+        self.raw = bytearray(H + 256)  # slack behind the header: a table that outgrows the header is observed, not a crash
         self.buf = memoryview(self.raw)
         ShmAllocator.initialize(self.buf, total)
         self.a = ShmAllocator(self.buf, total)
 
     def hdr(self, extra: int = 0) -> bytes:
         (n,) = struct.unpack_from("<I", self.raw, 16)
-        return bytes(self.raw[: min(H, 24 + 16 * (min(n, MAX) + extra))])
+        return bytes(self.raw[: min(len(self.raw), 24 + 16 * (n + extra))])
 
     def load(self, hdr: bytes) -> None:
         self.raw[: len(hdr)] = hdr
@@ -179,6 +192,8 @@ class Alloc:
                 return "ok"
         except ValueError:
             return "ValueError"
+        except Exception as e:  # not an outcome the allocator documents
+            return f"raised:{type(e).__name__}"
         raise AssertionError(op)
 
 
@@ -192,14 +207,16 @@ def step_case(ctx: Any, al: Alloc, op: dict, pending: list, tags: tuple[str, ...
     case = {"kind": "alloc-step", "total": al.total, "header": pre_hdr.hex(), "op": op}
     kind = op["k"]
     ctx.case(case, nontrivial=True, tags=tags + (f"op:{kind}", f"res:{_res_tag(res)}", f"entries:{_bucket(len(pre))}"))
-    if not inv_violations(pre, al.total):
+    if isinstance(res, str) and res.startswith("raised:"):
+        report(ctx, case, f"C28:allocator-{res}", f"{kind} on a table of {len(pre)} entries {res}")
+    elif not inv_violations(pre, al.total):
         check_inv(ctx, case, post, al.total)
         if kind == "alloc" and op["n"] > 0 and res != "ValueError":
             check_alloc(ctx, case, pre, post, al.total, op["n"], res)
         elif kind == "free" and any(o == op["x"] for o, _ in pre):
             want = [e for e in pre if e[0] != op["x"]]
             if res != "ok" or post != want:
-                ctx.fail(case, "C28:free-table-change", f"free({op['x']}) -> {res}; table is not the old table minus that entry")
+                report(ctx, case, "C28:free-table-change", f"free({op['x']}) -> {res}; table is not the old table minus that entry")
     pending.append((case, pre_hdr, op, res, post, post_hdr))
     return res
 
@@ -334,7 +351,7 @@ def codec_impl(case: dict) -> tuple[str, dict, Any]:
     if case["kind"] == "encode":
         table = [tuple(e) for e in case["table"]]
         al = Alloc(H + 10)
-        al.raw[:] = bytes(H)
+        al.raw[:] = bytes(len(al.raw))
         al.a._write_allocs(list(table))
         return "C28.encode", {"table": [list(e) for e in table]}, bytes(al.raw[: 24 + 16 * len(table)]).hex()
     if case["kind"] == "decode":
@@ -408,7 +425,7 @@ def sink_cases(ctx: Any, rng: Any, n: int) -> None:
         ctx.case(case, nontrivial=True, tags=("k:sink", "sink:refused" if "overflow" in log else "sink:all-ok"))
         outside = bytes(raw[:start]) + bytes(raw[start + limit:])
         if outside.strip(bytes([FILL])):
-            ctx.fail(case, "C28:sink-wrote-outside-region", f"_ShmSink(start={start}, limit={limit}) changed bytes outside its region (writes {sizes})")
+            report(ctx, case, "C28:sink-wrote-outside-region", f"_ShmSink(start={start}, limit={limit}) changed bytes outside its region (writes {sizes})")
         cases.append(case)
         obs.append((log, sink.bytes_written))
         reqs.append(("C28.sink", {"start": start, "limit": limit, "buflen": buflen, "chunks": sizes}))
@@ -577,28 +594,28 @@ def write_scenario(ctx: Any, spec: dict, layout: str) -> None:
         check_inv(ctx, case, post_table, total)
         for o, l in pre_table:
             if post[o : o + l] != snap[o : o + l]:
-                ctx.fail(case, "C28:write-altered-live-batch", f"allocation ({o},{l}) of another live batch changed while writing a {spec['tag']} batch "
+                report(ctx, case, "C28:write-altered-live-batch", f"allocation ({o},{l}) of another live batch changed while writing a {spec['tag']} batch "
                          f"(stream {len(meas['data'])} bytes, allocation asked {need})")
                 break
         if isinstance(res, tuple):
             off, ln = res
             mine = [l for o, l in post_table if o == off]
             if not mine or ln > mine[0]:
-                ctx.fail(case, "C28:write-exceeds-allocation", f"returned region ({off},{ln}) vs table entry {mine}")
+                report(ctx, case, "C28:write-exceeds-allocation", f"returned region ({off},{ln}) vs table entry {mine}")
             else:
                 if post[H:off] != snap[H:off] or post[off + mine[0] :] != snap[off + mine[0] :]:
-                    ctx.fail(case, "C28:write-outside-allocation", f"bytes outside [{off},{off + mine[0]}) changed (stream {len(meas['data'])} bytes)")
+                    report(ctx, case, "C28:write-outside-allocation", f"bytes outside [{off},{off + mine[0]}) changed (stream {len(meas['data'])} bytes)")
         elif res is None:
             pass  # fell back to inline; the live-batch check above is what the property demands
         else:
-            ctx.fail(case, "C28:write-raised", f"allocate_and_write raised {res} (stream {len(meas['data'])} bytes, allocation asked {need})")
+            report(ctx, case, "C28:write-raised", f"allocate_and_write raised {res} (stream {len(meas['data'])} bytes, allocation asked {need})")
         for o, l in live:  # the neighbours still decode to what was written
             try:
                 ok = shm._deserialize_from_shm(seg.read_buffer(o, l), nb.schema).equals(nb)
             except Exception:
                 ok = False
             if not ok:
-                ctx.fail(case, "C28:write-altered-live-batch", f"neighbour batch at ({o},{l}) no longer decodes to what was written")
+                report(ctx, case, "C28:write-altered-live-batch", f"neighbour batch at ({o},{l}) no longer decodes to what was written")
                 break
         # ---- K ---------------------------------------------------------------------------------------
         if ctx.driver is not None:
@@ -678,21 +695,21 @@ def pointer_case(ctx: Any, seg: Any, seed: int) -> None:
             # release one in the middle so later writes land in holes
             b0, pb0, cm0 = written.pop(rng.randrange(len(written)))
             if shm.is_shm_pointer_batch(pb0, cm0):
-                _rb, _rc, rel = shm.resolve_shm_batch(pb0, cm0, seg)
-                del _rb
-                if rel:
-                    rel()
+                seg.free(int(cm0.get(b"vgi_rpc.shm_offset")))  # what the release callback of resolve_shm_batch does
     case = {"kind": "pointer", "seed": seed}
     ctx.case(case, nontrivial=True, tags=("k:pointer-path",))
     check_inv(ctx, case, parse_header(seg.buf), seg.size)
     for b, pb, cm in written:
         if shm.is_shm_pointer_batch(pb, cm):
             ctx.tag("pointer:shm")
-            got, _cm, _rel = shm.resolve_shm_batch(pb, cm, seg)
-            same = got.equals(b)
-            del got
+            try:
+                got, _cm, _rel = shm.resolve_shm_batch(pb, cm, seg)
+                same = got.equals(b)
+                del got
+            except Exception:  # the stored bytes are no longer a readable stream
+                same = False
             if not same:
-                ctx.fail(case, "C28:write-altered-live-batch", "a live batch no longer resolves to what was written after later writes")
+                report(ctx, case, "C28:write-altered-live-batch", "a live batch no longer resolves to what was written after later writes")
                 break
         else:
             ctx.tag("pointer:inline")
@@ -729,6 +746,8 @@ CORPUS_WRITES = [
 def run(ctx: Any) -> None:
     from vgi_rpc import shm
 
+    _PER_KEY.clear()
+
     rng = ctx.rng
     thorough = ctx.tier == "thorough"
     if ctx.driver is not None:
@@ -740,7 +759,7 @@ def run(ctx: Any) -> None:
         if {k: c[k] for k in impl} != impl:
             ctx.mismatch(case, c, impl, "extracted constants vs the imported module")
     if shm.HEADER_SIZE != H or shm.MAX_ALLOCS > MAX:
-        ctx.fail({"kind": "consts"}, "C28:limit-constants", f"HEADER_SIZE={shm.HEADER_SIZE}, MAX_ALLOCS={shm.MAX_ALLOCS}: not the documented layout / the 4094-entry limit")
+        report(ctx, {"kind": "consts"}, "C28:limit-constants", f"HEADER_SIZE={shm.HEADER_SIZE}, MAX_ALLOCS={shm.MAX_ALLOCS}: not the documented layout / the 4094-entry limit")
     # ---- allocator: exhaustive small spaces ---------------------------------------------------------
     plans = [(2, 6), (3, 5), (4, 3)] if not thorough and not ctx.deep else [(2, 8), (3, 6), (4, 5), (5, 4), (6, 4)]
     n = 0
@@ -795,7 +814,7 @@ def replay(ctx: Any, case: dict) -> None:
         ctx.case(case)
         outside = bytes(raw[: case["start"]]) + bytes(raw[case["start"] + case["limit"]:])
         if outside.strip(bytes([FILL])):
-            ctx.fail(case, "C28:sink-wrote-outside-region", "bytes outside the sink's region changed")
+            report(ctx, case, "C28:sink-wrote-outside-region", "bytes outside the sink's region changed")
         if ctx.driver is not None:
             got = ctx.driver.call("C28.sink", {"start": case["start"], "limit": case["limit"], "buflen": case["buflen"], "chunks": case["sizes"]})
             if [g["res"] for g in got] != log:
